@@ -38,7 +38,7 @@ the replaced part.
 import CtyModel.Props.C11
 import CtyModel.Lemmas.CoversWeaken
 import CtyModel.Lemmas.C12Funcs
-import CtyModel.Lemmas.d12bConcat
+import CtyModel.Lemmas.d12bHasIndex
 namespace CtyModel
 namespace C12
 open Fn Std
@@ -937,6 +937,26 @@ theorem sound_length_call (o w r : Value) (hk : o.whollyKnown = true) (hfo : o.w
       simpa [Value.length, Value.unMarks, hnm] using h
     exact ⟨D12b.lengthU_unmarked hl, Or.inl (by rw [D12b.lengthU_ty hl]; rfl)⟩
 
+/-- **`hasindex`**: `Impl` is `Value.HasIndex` (C01 `sound_hasIndex`); a collection known at the top with unknown
+members answers from its shape, `cty.DynamicVal` for either argument gives the unknown boolean. -/
+theorem sound_hasindex (o w ok wk r : Value) (hk : o.whollyKnown = true) (hkk : ok.whollyKnown = true)
+    (hfo : o.wfc = true) (hfk : ok.wfc = true) (hfw : w.wfc = true) (hfwk : wk.wfc = true)
+    (hmo : o.containsMarked = false) (hmok : ok.containsMarked = false)
+    (hmw : w.containsMarked = false) (hmwk : wk.containsMarked = false)
+    (hty : w.ty = o.ty ∨ w.ty.isDyn = true) (htk : wk.ty = ok.ty ∨ wk.ty.isDyn = true)
+    (hc : CoversX w o = true) (hck : CoversX wk ok = true)
+    (hrwf : Ty.wf r.ty = true) (hrefl : Covers r r = true)
+    (hr : (callUnrefined Stdlib.hasIndexSpec Stdlib.hasIndexType Stdlib.hasIndexImpl [o, ok]).1 = .ok r) :
+    ∃ r', (callUnrefined Stdlib.hasIndexSpec Stdlib.hasIndexType Stdlib.hasIndexImpl [w, wk]).1 = .ok r' ∧
+      Covers r' r = true :=
+  impl_soundness_lifts_to_call _ _ _ [o, ok] [w, wk] r (fun _ => D12b.hasIndexType_mono hty)
+    (fun t ht => by rw [D12b.hasIndexType_bool ht]; rfl)
+    (by intro a ha; simp at ha; rcases ha with rfl | rfl <;> exact C12L.whollyKnown_isKnown (by assumption))
+    (by intro a ha; simp at ha; rcases ha with rfl | rfl <;> assumption)
+    (by intro a ha; simp at ha; rcases ha with rfl | rfl <;> assumption)
+    (by simp [coversAll, hc, hck]) ⟨hty, htk, trivial⟩ hrwf hrefl
+    (fun _ _ => D12b.hasindex_implSound o w ok wk hk hkk hfo hfk hfw hfwk hmw hmwk hc hck) hr
+
 /-! ### the hypotheses are satisfiable -/
 
 example : TypeMonoW (C11.staticType (.list .string)) := static_typeMonoW _
@@ -1198,6 +1218,30 @@ example : (call Stdlib.lengthSpec Stdlib.lengthType Stdlib.lengthImpl [exS]).1 =
     ∀ x, (call Stdlib.lengthSpec Stdlib.lengthType Stdlib.lengthImpl [exSw]).1 = .ok x → Covers x (Value.intVal 2) = true :=
   sound_length_call exS exSw (Value.intVal 2) (by decide) (by decide) (by decide) (by decide) (by decide)
     (by intro h; cases h) (by decide) (Or.inl rfl) (by decide) (by rfl) ⟨by decide, by decide, by decide, by decide⟩
+
+
+/-- `hasindex(["a","b"], 1)` with a member unknown (still True: the shape is known), and with `cty.DynamicVal` as the list -/
+example : ∃ r', (callUnrefined Stdlib.hasIndexSpec Stdlib.hasIndexType Stdlib.hasIndexImpl [exLw, Value.intVal 1]).1 = .ok r' ∧
+    Covers r' (Value.boolVal true) = true :=
+  sound_hasindex exL exLw (Value.intVal 1) (Value.intVal 1) (Value.boolVal true) (by decide) (by decide) (by decide) (by decide)
+    (by decide) (by decide) (by decide) (by decide) (by decide) (by decide) (Or.inl rfl) (Or.inl rfl) (by decide) (by decide)
+    (by decide) (by decide) (by rfl)
+example : ∃ r', (callUnrefined Stdlib.hasIndexSpec Stdlib.hasIndexType Stdlib.hasIndexImpl [Value.dynVal, Value.intVal 1]).1 = .ok r' ∧
+    Covers r' (Value.boolVal true) = true :=
+  sound_hasindex exL Value.dynVal (Value.intVal 1) (Value.intVal 1) (Value.boolVal true) (by decide) (by decide) (by decide) (by decide)
+    (by decide) (by decide) (by decide) (by decide) (by decide) (by decide) (Or.inr rfl) (Or.inl rfl) (by decide) (by decide)
+    (by decide) (by decide) (by rfl)
+
+
+/-- a non-vacuous instance of the conversion law: an environment in which conversion to the placeholder type is
+the identity (what `convert.Convert(v, cty.DynamicPseudoType)` does) and nothing else is answered -/
+example : EnvConvertSound { convert := fun v t => if t = .dyn then .ok v else .unmodelled } := by
+  intro o w t r hc hty h
+  by_cases ht : t = .dyn
+  · simp only [ht, if_true, Res.ok.injEq] at h ⊢
+    subst h
+    exact ⟨w, rfl, hty, coversX_covers hc⟩
+  · simp [ht] at h
 
 end C12
 end CtyModel
